@@ -13,6 +13,10 @@ Storage:   spec/TableStorage.tla -- memory order of the axes, element type and h
 Routes:    spec/ModeRoute.tla -- how the mode reaches a table served by a cache (set_interpolation before / after a load,
            GlobalCache, nothing set): every cache holder (OpacityCache: pickle, HDF5, Exo-Transmit; KTableCache: pickle,
            HDF5) is crossed with every exported route.
+GridType:  spec/MC_InterpGridType.tla + records GRIDTYPE of spec/TableStorage.tla -- element type of the temperature /
+           pressure GRIDS (int64, int32, int16, float32, float64) x requests a fraction of a kelvin (2^-20, 1/2, 1 - 2^-20)
+           beside every node, whole kelvin (also passed as integers), nodes, outside: the result does not depend on the
+           grid's type (expected counterexample: the request converted to the grid's type before the cell search).
 Contrast:  spec/MC_InterpContrast.tla -- entries 1, 1e-20, 1e-40 side by side in ONE table (graded exact values):
            every node (grid edges included), mid-point and outside query, both modes, relative 1e-12 to the value itself.
 """
@@ -84,7 +88,25 @@ def logical_table(tn, pn, tabs, unit, layout):
     return wn, np.stack([x, x * 3.0], axis=-1)
 
 
-def build(tn, pn, tabs, mode, unit, layout, xs=1, ys=1, store=None, directory=None, route=None):
+NP_GRIDTYPE = {'i8': np.int64, 'i4': np.int32, 'i2': np.int16, 'f4': np.float32, 'f8': np.float64}
+
+
+def retype_grids(op, gt):
+    """Give the grids of a fixture object the element type of a GRIDTYPE record (TableStorage.tla).  The nodes are whole
+    kelvin / whole pascal: they must be the same numbers in the new type."""
+    dt = NP_GRIDTYPE[gt['gdtype']]
+    for attr in ('_t', '_p') if gt['pgrid'] else ('_t',):
+        old = getattr(op, attr)
+        new = old.astype(dt)
+        if new.dtype != np.dtype(dt) or not np.array_equal(new.astype(float), old):
+            raise Machinery('grid %r is not representable with element type %s' % (old.tolist(), gt['gdtype']))
+        setattr(op, attr, new)
+    if op.temperatureGrid.dtype != np.dtype(dt):
+        raise Machinery('fixture does not serve the typed temperature grid')
+    return op
+
+
+def build(tn, pn, tabs, mode, unit, layout, xs=1, ys=1, store=None, directory=None, route=None, gtype=None):
     """One fixture holding len(tabs) tables along the wavenumber axis.  tn, pn: node coordinates on the lattice
     (xs units per kelvin, ys per dex; nodes are whole kelvin / whole decades).  store: a storage class exported by
     TableStorage.tla (memory order, element type, holder), None = C-contiguous float64 array handed directly."""
@@ -96,9 +118,10 @@ def build(tn, pn, tabs, mode, unit, layout, xs=1, ys=1, store=None, directory=No
         op, closer = build_store(store, directory, wn, temps, press, x, [0.25, 0.75], mode, route=route['steps'] if route else None)
         op._verif_close = closer
         return op, wn
-    if layout == 'xsec':
-        return GridOpacity('X', wn, temps, press, x, mode), wn
-    return GridKTable('X', wn, temps, press, x, [0.25, 0.75], mode), wn
+    op = GridOpacity('X', wn, temps, press, x, mode) if layout == 'xsec' else GridKTable('X', wn, temps, press, x, [0.25, 0.75], mode)
+    if gtype is not None:
+        retype_grids(op, gtype)
+    return op, wn
 
 
 def judge(vec, got, unit, rel=REL, relto_hi=False):
@@ -140,8 +163,16 @@ def store_pass(st):
                 rel=float(tol) if tol else REL, relto_hi=bool(tol))
 
 
+def grid_pass(gt, layout='xsec', intreq=False):
+    """Pass through one element type of the grids (record GRIDTYPE of TableStorage.tla)."""
+    tol = frac(gt['tol'])
+    return dict(layout=layout, unit=1.0, gtype=gt, intreq=bool(intreq), rel=float(tol) if tol else REL, relto_hi=bool(tol))
+
+
 def pass_cls(ps):
     st = ps.get('store')
+    if ps.get('gtype') is not None:
+        return '%s:grid:%s%s' % (ps['layout'], ps['gtype']['gdtype'], ':intT' if ps.get('intreq') else '')
     if st is None:
         return ps['layout']
     rt = ':route:' + ps['route']['name'] if ps.get('route') else ''
@@ -198,8 +229,12 @@ def run_vectors(ctx, vecs, label, passes=None, subranges=True, tmpdir=None):
             extra['tabs'] = tabs        # a replay has to rebuild the whole block: its shape is part of the storage class
             if ps.get('route'):
                 extra['route'] = ps['route']
+        if ps.get('gtype') is not None:
+            extra['gtype'] = ps['gtype']
+            extra['intreq'] = bool(ps.get('intreq'))
+            extra['tabs'] = tabs
         try:
-            op, wn = build(tn, pn, tabs, mode, unit, layout, xs, ys, ps.get('store'), tmpdir, ps.get('route'))
+            op, wn = build(tn, pn, tabs, mode, unit, layout, xs, ys, ps.get('store'), tmpdir, ps.get('route'), ps.get('gtype'))
             err = None
         except Machinery:
             raise
@@ -213,6 +248,10 @@ def run_vectors(ctx, vecs, label, passes=None, subranges=True, tmpdir=None):
         try:
             for (x, y), d in sorted(byq.items()):
                 T, P = t_of(x, xs), p_of(y, ys)
+                if ps.get('intreq'):        # whole-kelvin requests passed as integers (the others belong to the float pass)
+                    if x % xs:
+                        continue
+                    T = int(x // xs)
                 for sub in ((None, (1, max(2, len(tabs) - 1))) if subranges else (None,)):
                     idx = list(range(len(tabs))) if sub is None else list(range(sub[0], sub[1]))
                     shape = (len(idx),) if layout == 'xsec' else (len(idx), 2)
@@ -248,6 +287,8 @@ def one_vector(ctx, v):
     """Replay of a single stored vector."""
     st = v.get('store')
     ps = store_pass(st) if st else dict(layout=v.get('layout', 'xsec'), unit=v.get('unit', 1.0))
+    if v.get('gtype'):
+        ps = grid_pass(v['gtype'], ps['layout'], v.get('intreq'))
     if st and v.get('route'):
         ps['route'] = v['route']
     tabs = v.get('tabs') or [v['tab']]
@@ -255,9 +296,11 @@ def one_vector(ctx, v):
     tmp = tempfile.mkdtemp(prefix='c04replay_') if st else None
     try:
         op, wn = build(v['tn'], v['pn'], tabs, v['mode'], ps['unit'], ps['layout'], v.get('xs', 1), v.get('ys', 1), st, tmp,
-                       v.get('route'))
+                       v.get('route'), v.get('gtype'))
         sub = v.get('sub')
         T, P = t_of(v['x'], v.get('xs', 1)), p_of(v['y'], v.get('ys', 1))
+        if v.get('intreq'):
+            T = int(T)
         if sub and len(tabs) > 1:
             res = np.asarray(op.opacity(T, P, wn[sub[0]:sub[1]]))
             k -= sub[0]
@@ -659,6 +702,36 @@ def run(ctx):
              % sorted({r['name'] for r in routes}))
     ctx.note('storage classes driven (layout x holder x axis order x element type x magnitude): %d, each through %d vectors (both modes)'
              % (len(stores), nstorevec))
+
+    # -- element type of the GRIDS (records GRIDTYPE of TableStorage.tla) x requests beside the nodes (MC_InterpGridType.tla)
+    ctx.expect_refuted('grid-type: request converted to the element type of the grid before the cell search (expected counterexample)',
+                       'MC_InterpGridType', 'XC_InterpGridType_cast.cfg', 'CellBracketsRequest', workers=1)
+    gtypes = res.tagged('GRIDTYPE')
+    for need in ('i8', 'i4', 'i2', 'f4', 'f8'):
+        if not any(g['gdtype'] == need for g in gtypes):
+            raise Machinery('vacuous: grid element type %r not exported' % need)
+    ngrid = 0
+    for cfg in ('EX_InterpGridType_lin.cfg', 'EX_InterpGridType_exp.cfg'):
+        gvecs = uniq_vecs(ctx.check_spec('export-' + cfg, 'MC_InterpGridType', cfg, workers=1))
+        have = {v['sx'] for v in gvecs}
+        for need in ('above', 'below', 'whole', 'node', 'out'):
+            if need not in have:
+                raise Machinery('vacuous: no request of class %r exported by %s' % (need, cfg))
+        ngrid += len(gvecs)
+        passes = []
+        for g in gtypes:
+            for layout in (('xsec',) if q and g['gdtype'] not in ('i4',) else ('xsec', 'ktable')):
+                passes.append(grid_pass(g, layout))
+                if g['integer']:
+                    passes.append(grid_pass(g, layout, intreq=True))
+        run_vectors(ctx, gvecs, cfg, passes=passes, subranges=False)
+        # whole-kelvin requests (also as integers) on the wide cells of the generic vectors
+        wide = keep['EX_Interp_lin3.cfg' if cfg.endswith('lin.cfg') else 'EX_Interp_exp3.cfg']
+        if max(wide[0]['pn']) > 4:
+            passes = [ps for ps in passes if ps['gtype']['gdtype'] != 'i2' or not ps['gtype']['pgrid']]
+        run_vectors(ctx, wide, cfg + ':wide', passes=[ps for ps in passes if ps['layout'] == 'xsec'], subranges=False)
+    ctx.note('grid element types driven (temperature / pressure nodes as int64, int32, int16, float32, float64; requests 2^-20 .. '
+             '1 - 2^-20 K beside every node, whole kelvin as float and as integer): %d types x %d vectors' % (len(gtypes), ngrid))
     run_traces(ctx, 1500 if q else 12000, 800 if q else 6000)
     nh = run_histories(ctx, 10 if q else 60)
     ctx.note('history walks on long-lived opacity objects (mode switches on the object and through the cache, sub-ranges, all regions): %d' % nh)
